@@ -70,6 +70,41 @@ def revcompNamedRef : List String → List (String × Seq) → Option (List (Str
       if r.2.any (fun c => (complementByte c).isNone) then none
       else revcompNamedRef t (updateFirst n (fun s => (s.map fun c => (complementByte c).getD c).reverse) rows)
 
+/-- removal of sites of rows of `L` columns given, site by site, whether the site qualifies (`q`): every qualifying
+site is removed, or with `ends` only those of the maximal qualifying runs at the start and at the end; reported: the
+lengths of these two runs, the kept and the removed positions -/
+def cleanByQual (rows : List (String × Seq)) (L : Nat) (q : List Bool) (ends : Bool) : List (String × Seq) × String :=
+  let lead := (q.takeWhile id).length
+  let trail := (q.reverse.takeWhile id).length
+  let gone (i : Nat) : Bool := q.getD i false && (!ends || i < lead || i ≥ L - trail)
+  let kept := (List.range L).filter fun i => !gone i
+  let removed := (List.range L).filter gone
+  (rows.map fun r => (r.1, kept.filterMap fun j => r.2[j]?), sitesStatus lead trail kept removed)
+
+/-- the residues of site `j`, one per row holding one -/
+def siteColumn (rows : List (String × Seq)) (j : Nat) : List Byte := rows.filterMap fun r => r.2[j]?
+
+/-- `RemoveCharacterSites`: a site qualifies when the number of its residues that are selected meets the cutoff
+`num/den` (`cutoffTest`: at least that proportion, or at least one for a cutoff of 0) over the number of its residues that
+count.  Selected: a member of the character set `cs` (up to case with `ic`) - or, with `rev`, a non-member.  Counting: every
+residue but the gaps with `ig` and the wildcard (N/n, X/x for amino acids) with `iN`. -/
+def charQual (cs : List Byte) (num den : Nat) (ic ig iN rev : Bool) (alphabet : Nat) (rows : List (String × Seq)) (L : Nat) :
+    List Bool :=
+  let wild : Byte := if alphabet == AMINOACIDS then 88 else 78
+  let selected (x : Byte) : Bool := (cs.any fun v => v == x || (ic && toLower v == toLower x)) != rev
+  let counts (x : Byte) : Bool := !(ig && x == GAP) && !(iN && (x == wild || x == toLower wild))
+  (List.range L).map fun j =>
+    cutoffTest num den ((siteColumn rows j).filter selected).length ((siteColumn rows j).filter counts).length
+
+/-- `RemoveMajorityCharacterSites`: a site qualifies when the number of occurrences of its most frequent residue meets
+the cutoff over the number of its residues that count (`maxCharSite`, the per-site function of `MaxCharStats`, whose meaning
+is `C14.maxCharSite_is_argmax`: case is folded, gaps / wildcards do not count with `ig` / `iN`; when no residue counts the
+occurrences are the number of rows and the total is 0, so that the site qualifies).  The cutoff is used as given
+(`cutoffTestRaw`): the step is only specified for a cutoff within [0, 1]. -/
+def majQual (num den : Nat) (ig iN : Bool) (alphabet : Nat) (rows : List (String × Seq)) (L : Nat) : List Bool :=
+  (List.range L).map fun j =>
+    cutoffTestRaw num den (maxCharSite alphabet ig iN (siteColumn rows j)).2.1 (maxCharSite alphabet ig iN (siteColumn rows j)).2.2
+
 /-- outcome of a step: the new state (`none` = the documented behaviour leaves the state unspecified
 after this error) and the status -/
 def stepOp (b : SBag) : Op → Option SBag × String
@@ -288,5 +323,29 @@ def stepOp (b : SBag) : Op → Option SBag × String
     match Gv.Model.maskOccurences b.rows b.length b.alphabet refseq maxOcc mr with
     | none => (some b, "err")
     | some rows => (some { b with rows := rows }, "ok")
+  | .rmCharSites cs num den ends ic ig iN rev =>
+    -- the qualifying sites (`charQual`) are removed (`cleanByQual`: all of them, or the leading and trailing runs);
+    -- names, order and the other residues stay; an alignment without sequences has no site
+    if !b.isAlign then (some b, "na") else
+    if b.rows = [] then (some b, sitesStatus 0 0 [] []) else
+    (some { b with rows := (cleanByQual b.rows b.length.toNat
+              (charQual cs num den ic ig iN rev b.alphabet b.rows b.length.toNat) ends).1 },
+     (cleanByQual b.rows b.length.toNat (charQual cs num den ic ig iN rev b.alphabet b.rows b.length.toNat) ends).2)
+  | .rmMajSites num den ends ig iN =>
+    -- likewise with the majority qualification (`majQual`); the documentation announces that a cutoff outside [0, 1] is
+    -- taken as 0, the method uses it as given: nothing is specified there
+    if !b.isAlign then (some b, "na") else
+    if b.rows = [] then (some b, sitesStatus 0 0 [] []) else
+    if den == 0 || num > den then (none, "ok") else
+    (some { b with rows := (cleanByQual b.rows b.length.toNat (majQual num den ig iN b.alphabet b.rows b.length.toNat) ends).1 },
+     (cleanByQual b.rows b.length.toNat (majQual num den ig iN b.alphabet b.rows b.length.toNat) ends).2)
+  | .replaceRe ok seqs =>
+    -- a regular expression that does not compile is an error and nothing changes; otherwise the `i`-th row takes the
+    -- `i`-th new sequence, names and order stay; in an alignment a replacement that changes the length of a sequence is
+    -- an error after which the content is unspecified
+    if !ok then (some b, "err") else
+    let rows := b.rows.zipIdx.map fun (r, i) => (r.1, seqs.getD i r.2)
+    if b.isAlign && rows.any (fun r => (r.2.length : Int) != b.length) then (none, "err")
+    else (some { b with rows := rows }, "ok")
 
 end Gv.Spec
